@@ -337,6 +337,14 @@ class Judge(object):
             # ---------- property
             for v in judge_step(case, si, st, r, oracle.get((ci, si)), self._cls):
                 ctx.violate(v[0], v[1], _mini(case, si), expected=v[2], observed=v[3])
+            # P2 on the wire itself (independent of where the interface keeps its counter): the innermost
+            # request frame of this step must not carry the sequence number of the previous step's frame,
+            # whatever the outcome of the previous request was
+            ws = _wire_seq(r)
+            if si > 0 and ws is not None and ws == _wire_seq(res[si - 1]):
+                ctx.violate(SIG_SEQ % tr, 'two consecutive requests carry the same sequence number on the wire '
+                            '(previous request ended with %s)' % res[si - 1]['out'][0], _mini(case, si),
+                            expected='sequence != %d' % ws, observed='sequence %d' % ws)
 
     def _cls(self, cs, rid, fhex):
         k = self._cls_key(cs, rid, fhex)
@@ -345,6 +353,14 @@ class Judge(object):
             d = dict(p.split('=') for p in ans.split())
             self.cls_cache[k] = (d.get('reply') == '1', d.get('unrelated') == '1', d.get('bareack') == '1')
         return self.cls_cache[k]
+
+
+def _wire_seq(r):
+    """Sequence number in the first frame a step wrote (outermost IPMB header), or None."""
+    tx = r.get('tx')
+    if tx and tx[0] is not None and len(tx[0]) >= 5:
+        return tx[0][4] >> 2
+    return None
 
 
 def judge_step(case, si, st, r, oracle_ans, cls):
@@ -748,6 +764,13 @@ def replay(ctx, v):
             print('   VIOLATES %s: %s' % (sig, what))
             print('     expected %s' % exp)
             print('     observed %s' % obs)
+            if sig == v.get('signature'):
+                bad = True
+        ws = _wire_seq(r)
+        if si > 0 and ws is not None and ws == _wire_seq(res[si - 1]):
+            sig = SIG_SEQ % case['transport']
+            print('   VIOLATES %s: same sequence number %d on the wire as the previous request (which ended with %s)'
+                  % (sig, ws, res[si - 1]['out'][0]))
             if sig == v.get('signature'):
                 bad = True
     return bad
